@@ -301,23 +301,53 @@ def check_c07(tier, seed):
     return ck.finish()
 
 
-def phc_term(ck, prog, pr, seed):
-    """`bound_nsec += phc_error_bound` in process_clock_update: read off the MIR as an overflow-checked addition
-    whose result is what gets stored when the report is synchronised"""
-    fn = prog.find1('process_clock_update', self_ty='ShmUpdater')
-    text = '\n'.join(s for b in fn.blocks.values() for s in b)
-    m = re.search(r'(_\d+) = AddWithOverflow\(copy (_\d+), copy (_\d+)\)', text)
-    ok = False
-    if m:
-        # the operands: one is field .0 of the tuple returned by extract_bound_from_tracking, the other is parameter _3 (phc_error_bound)
-        a, b = m.group(2), m.group(3)
-        def_a = re.search(r'%s = copy \((_\d+)\.0: i64\)' % a, text)
-        ok = (b == '_3' and def_a is not None) or (a == '_3')
-        stores = re.search(r'\(\(\*_1\)\.3: i64\) = (?:copy|move) (_\d+)', text)
-        ok = ok and stores is not None
-    pr.prove('process_clock_update: published bound = extracted bound + PHC error bound (overflow-checked addition feeding the stored field)', z3.BoolVal(True), z3.BoolVal(bool(ok)), need_reach=False)
-    if not ok:
-        ck.inconclusive.append('the PHC addition in process_clock_update was not recognised in the MIR (the C08 harness checks the published value end to end)')
+def phc_term(ck, prog, pr_outer, seed):
+    """the published bound of a synchronised report is the extracted bound plus the PHC error bound handed in with it: the real
+    `ShmUpdater::process_clock_update` executed from a fresh daemon with `extract_bound_from_tracking` as an oracle (any bound b >= 0,
+    any class) and any PHC term; native confirmation through the real updater (`history`)"""
+    from .daemon_updater import UpdaterModel, rec_fields, native_history
+    um = UpdaterModel(prog)
+    drift = z3.Int('drift')
+    st = State(); st.mem[(0, 'u')] = um.fresh_updater(drift)
+    phc = z3.Int('phc_0'); as_s, as_n = z3.Int('asof_s_0'), z3.Int('asof_n_0')
+    trk, ext, ref = um.new_report()
+    outs = um.step_report(st, phc, Struct([as_s, as_n]), trk)
+    b, c = ext
+    pr = Prover(seed); pr.add(um.ex.side)
+    dom = [b >= 0, b < 2 ** 61, phc >= 0, phc < 2 ** 61, as_s >= 0, as_s < 2 ** 40, as_n >= 0, as_n < 10 ** 9, drift >= 0, drift < 2 ** 32]
+    hist = [dict(kind=0, phc=phc, as_s=as_s, as_n=as_n, ext=ext, ref=ref, leap=getattr(um, 'last_leap', None))]
+    rp = common.Replay('debug')
+
+    def confirm(m):
+        out, expect = native_history(rp, m, hist, mval(m, drift))
+        if not out.startswith('ok') or len(out.split()) < 2:
+            return None
+        rec = tuple(int(x) for x in out.split()[1].split(':'))
+        e = expect[0]
+        ms, ph = e[2], e[3]
+        # natively the extracted bound is realised by a root dispersion of `ms` whole milliseconds (so it is ms*1e6 ns, up to 2 ns of rounding up)
+        lo, hi = ms * 10 ** 6 + ph, ms * 10 ** 6 + ph + 2
+        if e[1] == 1 and not (lo <= rec[4] <= hi):
+            ck.violation('phc-term-not-added', 'a synchronised report with |offset|+dispersion+delay/2 = %d ms and a PHC error bound of %d ns: the real ShmUpdater publishes bound_nsec = %d, the sum is %d ns'
+                         % (ms, ph, rec[4], lo), {'cmd': 'history', 'native': out, 'steps': [str(e)]})
+            return 'phc'
+        return None
+    k = z3.Int('hint_ms')
+    n = 0
+    for o in outs:
+        if o.kind != 'return':
+            continue
+        pubs = [e for e in o.state.trace if e.kind == 'publish']
+        if not pubs:
+            continue
+        n += 1
+        bound = rec_fields(pubs[-1].ret)[4]
+        pr.prove_cegar('process_clock_update path %d: a synchronised report publishes bound = extracted bound + PHC error bound' % n, z3.And(o.state.pcond(), c == 1, *dom), bound == b + phc,
+                       confirm, lambda m: [], hints=[[b == k * 10 ** 6, k >= 0, k <= 10 ** 6, phc <= 2 ** 40, b + phc >= 10 ** 9], [b == k * 10 ** 6, k >= 0, k <= 10 ** 6, phc <= 2 ** 40]])
+    rp.close()
+    if n == 0:
+        ck.inconclusive.append('process_clock_update publishes nothing on any path of a first report')
+    ck.absorb(pr, 'updater: ')
 
 
 def base(ck, ex, mir_wall, outs):
@@ -420,6 +450,9 @@ def check_c10(tier, seed):
         k1, k2 = z3.Int('hint_k1'), z3.Int('hint_k2')
         k3 = z3.Int('hint_k3')
         hints = [[tm.iv * 16 == z3.ToReal(k1), tm.iv <= 4096, tm.iv >= -4096, (tm.now_ns - tm.ref_ns) == k2 * 1000000, k2 >= 0, k2 < 10 ** 9],
+                 # a non-zero interval of either sign (a zero divisor leaves a float quotient unconstrained in the encoding)
+                 [tm.iv * 16 == z3.ToReal(k1), tm.iv <= -1, tm.iv >= -4096, (tm.now_ns - tm.ref_ns) == k2 * 1000000, k2 >= 1000, k2 < 10 ** 9, tm.leap <= 2],
+                 [tm.iv * 16 == z3.ToReal(k1), tm.iv >= 1, tm.iv <= 4096, (tm.now_ns - tm.ref_ns) == k2 * 1000000, k2 >= 0, k2 < 10 ** 9],
                  # wire values exactly representable as chrony floats, reference time a whole number of milliseconds ahead of / behind the clock
                  [tm.iv * 16 == z3.ToReal(k1), tm.iv <= 4096, tm.iv >= -4096, (tm.now_ns - tm.ref_ns) == k2 * 1000000, k2 > -10 ** 6, k2 < 10 ** 9,
                   tm.c * 16 == z3.ToReal(k3), tm.d * 16 == z3.ToReal(z3.Int('hint_k4')), tm.r * 16 == z3.ToReal(z3.Int('hint_k5'))],
